@@ -15,7 +15,7 @@ import (
 type State struct {
 	cells map[*Cell]Val
 	heap  map[string]*Term
-	wm    *Term
+	wm    *WMs
 	guard *Term
 	hv    *hvNode // havoc events in this state's history that cover heaps not yet materialised in `heap`
 }
@@ -26,7 +26,7 @@ type hvNode struct {
 	id    int
 	all   bool
 	set   map[string]bool
-	wm    *Term
+	wm    *WMs
 	prev  *hvNode
 	merge []hvEdge
 }
@@ -38,10 +38,86 @@ type hvEdge struct {
 
 var hvSeq int
 
-func newHV(all bool, set map[string]bool, wm *Term, prev *hvNode) *hvNode {
+func newHV(all bool, set map[string]bool, wm *WMs, prev *hvNode) *hvNode {
 	hvSeq++
-	return &hvNode{id: hvSeq, all: all, set: set, wm: wm, prev: prev}
+	return &hvNode{id: hvSeq, all: all, set: set, wm: wm.clone(), prev: prev}
 }
+
+// WMs holds the allocation watermarks of a state: one per allocation space (see refKeyOf). Object ids of a space are the
+// integers 1..watermark; an allocation in one space leaves every other space alone, so a fact quantified over "all
+// objects of type T" (which means: over the allocated ones) survives allocations of other types. Spaces never touched
+// explicitly share a lazily created default symbol per generation; a generation ends when an unknown callee may have
+// allocated anything (bumpAll) or where paths with different generations join.
+type WMs struct {
+	m   map[string]*Term
+	gen *wmGen
+}
+
+type wmGen struct {
+	id    int
+	prev  *WMs // watermarks before the event that started this generation (nil: function entry)
+	merge []wmEdge
+}
+
+type wmEdge struct {
+	g  *Term
+	wm *WMs
+}
+
+var wmGenSeq int
+
+func newWMs() *WMs { return &WMs{m: map[string]*Term{}, gen: &wmGen{}} }
+
+func (w *WMs) clone() *WMs {
+	n := &WMs{m: make(map[string]*Term, len(w.m)), gen: w.gen}
+	for k, v := range w.m {
+		n.m[k] = v
+	}
+	return n
+}
+
+// Get returns the watermark of allocation space key.
+func (ex *Exec) wmGet(w *WMs, key string) *Term {
+	if t, ok := w.m[key]; ok {
+		return t
+	}
+	g := w.gen
+	var t *Term
+	switch {
+	case g.merge != nil:
+		for i := len(g.merge) - 1; i >= 0; i-- {
+			d := ex.wmGet(g.merge[i].wm, key)
+			if t == nil {
+				t = d
+			} else {
+				t = Ite(g.merge[i].g, d, t)
+			}
+		}
+	case g.prev == nil:
+		t = Sym("alloc0_"+key, SInt)
+		if ex.emitted == nil {
+			ex.emitted = map[string]bool{}
+		}
+		if !ex.emitted["wm:"+t.name] {
+			ex.emitted["wm:"+t.name] = true
+			ex.assumeRaw(Ge(t, Int(1)))
+		}
+	default:
+		t = Sym(fmt.Sprintf("alloc%d_%s", g.id, key), SInt)
+		if ex.emitted == nil {
+			ex.emitted = map[string]bool{}
+		}
+		if !ex.emitted["wm:"+t.name] {
+			ex.emitted["wm:"+t.name] = true
+			ex.assumeRaw(Ge(t, ex.wmGet(g.prev, key)))
+		}
+	}
+	w.m[key] = t
+	return t
+}
+
+func (ex *Exec) wm(st *State, key string) *Term { return ex.wmGet(st.wm, key) }
+
 
 // heapDefault is the value of a heap family that has not been materialised in a state yet.
 func (ex *Exec) heapDefault(hv *hvNode, name string, sort Sort) *Term {
@@ -60,9 +136,12 @@ func (ex *Exec) heapDefault(hv *hvNode, name string, sort Sort) *Term {
 		}
 		if hv.all || hv.set[name] {
 			symName := fmt.Sprintf("%s@hv%d", name, hv.id)
-			_, known := TS.decls[symName]
 			t := Sym(symName, sort)
-			if !known {
+			if ex.emitted == nil {
+				ex.emitted = map[string]bool{}
+			}
+			if !ex.emitted["hv:"+symName] {
+				ex.emitted["hv:"+symName] = true
 				ex.heapFacts(name, t, hv.wm)
 			}
 			return t
@@ -73,7 +152,7 @@ func (ex *Exec) heapDefault(hv *hvNode, name string, sort Sort) *Term {
 }
 
 func (s *State) clone() *State {
-	n := &State{cells: make(map[*Cell]Val, len(s.cells)), heap: make(map[string]*Term, len(s.heap)), wm: s.wm, guard: s.guard, hv: s.hv}
+	n := &State{cells: make(map[*Cell]Val, len(s.cells)), heap: make(map[string]*Term, len(s.heap)), wm: s.wm.clone(), guard: s.guard, hv: s.hv}
 	for k, v := range s.cells {
 		n.cells[k] = v
 	}
@@ -105,6 +184,9 @@ func unsupported(format string, a ...interface{}) {
 
 // Exec verifies one function (with everything inlined into it).
 type Exec struct {
+	wm0      *WMs          // watermarks at function entry
+	freshSeq map[*Term]int // allocation order of object ids created by alloc / declared fresh by a contract
+	freshCtr int
 	eng     *Engine
 	top     *ssa.Function
 	con     *Contract
@@ -121,14 +203,18 @@ type Exec struct {
 	entry   *State
 	checked map[string]bool // nopanic classes enabled
 	arith   bool
+	ranged  bool // assume (not prove) that integer values and results stay in their type's range
 	curPos  token.Pos
 	boundN  int
 	allocs  int
 	propsOf []string
 	pendingEnv0 *SpecEnv
 	callCells   map[string]*Cell // ghost counters: calls("pattern")
+	resCells    map[string]*Cell // ghost: lastresult("pattern") = result of the latest matching call
 	ifaceVals   map[*Term]Val    // interface id -> boxed value (Go side)
 	inlinedInstr int
+	impure       int // bumped by every havoc / summary / loop cut (used to detect non-straight-line evaluations)
+	emitted      map[string]bool // once-only facts already asserted (rolled back together with assumptions in dry runs)
 	opaqueDone   map[string]bool
 	pendingSummaries []*wset // write sets of summarised callees: heaps first touched later must still be havocked
 	havocEpoch  int
@@ -139,6 +225,21 @@ type writeLog struct {
 	heaps map[string]*heapW
 	hvAll bool
 	hvSet map[string]bool
+	// objects allocated while this log is active (after freshFrom in ex.freshSeq) lie above the watermark the
+	// logged region started from: writes to their rows cannot touch any object that existed before
+	// Such writes are not logged: the unallocated space above a watermark is unconstrained in every heap symbol, so
+	// the heap the region started from already stands for "whatever earlier iterations left in their own objects".
+	ex        *Exec
+	freshFrom int
+	allocKeys map[string]bool // allocation spaces in which the region allocates
+	allocAll  bool
+}
+
+func (wl *writeLog) logAlloc(key string) {
+	if wl.allocKeys == nil {
+		wl.allocKeys = map[string]bool{}
+	}
+	wl.allocKeys[key] = true
 }
 
 type heapW struct {
@@ -147,6 +248,9 @@ type heapW struct {
 }
 
 func (wl *writeLog) logHeap(name string, idx *Term) {
+	if idx != nil && wl.ex != nil && wl.ex.freshSeq[idx] > wl.freshFrom {
+		return
+	}
 	w := wl.heaps[name]
 	if w == nil {
 		w = &heapW{}
@@ -164,9 +268,24 @@ func (wl *writeLog) logHeap(name string, idx *Term) {
 	w.idx = append(w.idx, idx)
 }
 
+// markFresh registers the id of an object allocated just now.
+func (ex *Exec) markFresh(id *Term) {
+	if ex.freshSeq == nil {
+		ex.freshSeq = map[*Term]int{}
+	}
+	ex.freshCtr++
+	ex.freshSeq[id] = ex.freshCtr
+}
+
 func (wl *writeLog) absorb(o *writeLog) {
 	if o.hvAll {
 		wl.hvAll = true
+	}
+	if o.allocAll {
+		wl.allocAll = true
+	}
+	for k := range o.allocKeys {
+		wl.logAlloc(k)
 	}
 	for n := range o.hvSet {
 		if wl.hvSet == nil {
@@ -222,14 +341,15 @@ func (ex *Exec) note(kind, what string) {
 }
 
 func (ex *Exec) assume(st *State, fact *Term) {
-	if fact == True {
+	if fact == True || fact.bound {
+		// side facts about a term under a quantifier (len of a quantified map, ...) cannot be stated outside it
 		return
 	}
 	ex.assumps = append(ex.assumps, Implies(st.guard, fact))
 }
 
 func (ex *Exec) assumeRaw(fact *Term) {
-	if fact == True {
+	if fact == True || fact.bound {
 		return
 	}
 	ex.assumps = append(ex.assumps, fact)
@@ -270,11 +390,14 @@ func (ex *Exec) heapGet(st *State, name string, sort Sort) *Term {
 	if t, ok := st.heap[name]; ok {
 		return t
 	}
-	_, known := ex.heapSrt[name]
 	ex.heapSrt[name] = sort
 	t0 := Sym(name+"@0", sort)
-	if !known {
-		ex.heapFacts(name, t0, Sym("alloc0", SInt))
+	if ex.emitted == nil {
+		ex.emitted = map[string]bool{}
+	}
+	if !ex.emitted["heap0:"+name] {
+		ex.emitted["heap0:"+name] = true
+		ex.heapFacts(name, t0, ex.wm0)
 	}
 	if e := ex.entry; e != nil && e != st {
 		if _, ok := e.heap[name]; !ok {
@@ -293,13 +416,26 @@ func (ex *Exec) heapSet(st *State, name string, v *Term) {
 	prev := st.heap[name]
 	st.heap[name] = v
 	if ex.wlog != nil {
-		// recognise store chains over the previous value
+		// recognise store chains over the previous value: the rows that may differ are those stored above the
+		// nearest common ancestor of the two chains (Store() collapses repeated writes to one index, so the new
+		// chain need not contain the previous value itself)
+		onPrev := map[*Term]int{}
+		var prevIdx []*Term
+		for c, i := prev, 0; i < 64; i++ {
+			onPrev[c] = len(prevIdx)
+			if c.op != "store" {
+				break
+			}
+			prevIdx = append(prevIdx, c.args[1])
+			c = c.args[0]
+		}
 		cur := v
 		var idxs []*Term
 		ok := false
 		for i := 0; i < 64; i++ {
-			if cur == prev {
+			if k, found := onPrev[cur]; found {
 				ok = true
+				idxs = append(idxs, prevIdx[:k]...)
 				break
 			}
 			if cur.op != "store" {
@@ -307,11 +443,6 @@ func (ex *Exec) heapSet(st *State, name string, v *Term) {
 			}
 			idxs = append(idxs, cur.args[1])
 			cur = cur.args[0]
-		}
-		if !ok && prev.op == "store" && cur == prev.args[0] {
-			// Store() collapsed a write to the same index as the previous top store
-			ok = true
-			idxs = append(idxs, prev.args[1])
 		}
 		if ok {
 			for _, ix := range idxs {
@@ -349,14 +480,75 @@ func leafKind(l Leaf) string {
 // heapSortReg: sort of every heap family whose name has been generated.
 var heapSortReg = map[string]Sort{}
 
+// heapOwnerKey / heapLeafRef: allocation space of the objects a heap family is indexed by, and of the references it
+// stores ("" = none / not a reference).
+var heapOwnerKey = map[string]string{}
+var heapLeafRef = map[string]string{}
+var heapLeafT = map[string]types.Type{}
+
+// exposeHeaps: allocation spaces in which writes to the given heap families can make new objects reachable.
+func exposeHeaps(names []string) *exposure {
+	e := &exposure{keys: map[string]bool{}}
+	for _, n := range names {
+		var x *exposure
+		if r := heapLeafRef[n]; r != "" {
+			// a reference leaf: the space it points into and whatever objects there reach
+			kt := keyType[r]
+			x = &exposure{keys: map[string]bool{r: true}}
+			if kt != nil {
+				var y *exposure
+				if m, ok := kt.(*types.Map); ok {
+					y = exposureOf(types.NewTuple(types.NewVar(0, nil, "", m.Key()), types.NewVar(0, nil, "", m.Elem())))
+				} else {
+					y = exposureOf(kt)
+				}
+				for k := range y.keys {
+					x.keys[k] = true
+				}
+				x.all = y.all
+			}
+		} else if t := heapLeafT[n]; t != nil {
+			x = exposureOf(t)
+		}
+		if x == nil {
+			continue
+		}
+		for k := range x.keys {
+			e.keys[k] = true
+		}
+		if x.all {
+			e.all = true
+		}
+	}
+	return e
+}
+
+// expose gives new watermarks to the spaces of e (every space when an interface of unknown dynamic type is reachable).
+func (ex *Exec) expose(st *State, e *exposure) {
+	if e.all {
+		ex.bumpWM(st)
+		return
+	}
+	ex.bumpKeys(st, e.keys)
+}
+
 func registerHeap(name string, t types.Type, path string) {
 	if _, ok := heapLeafKind[name]; ok {
 		return
 	}
 	heapLeafKind[name] = ""
+	if _, isG := t.(globalObj); !isG {
+		if strings.HasPrefix(name, "E_") {
+			heapOwnerKey[name] = "E_" + heapKeyT(t)
+		} else {
+			heapOwnerKey[name] = "H_" + heapKeyT(t)
+		}
+	}
 	for _, l := range Layout(t) {
 		if l.Path == path {
 			heapLeafKind[name] = leafKind(l)
+			heapLeafRef[name] = l.Ref
+			heapLeafT[name] = l.T
 			if strings.HasPrefix(name, "E_") {
 				heapSortReg[name] = ArrSort(SInt, ArrSort(SInt, l.Sort))
 			} else {
@@ -379,7 +571,7 @@ func elemHeapName(el types.Type, path string) string {
 }
 
 // heapFacts assumes the range facts every value stored in heap symbol h satisfies (ids are below the watermark).
-func (ex *Exec) heapFacts(name string, h *Term, wm *Term) {
+func (ex *Exec) heapFacts(name string, h *Term, wm *WMs) {
 	kind := heapLeafKind[name]
 	if kind == "" {
 		return
@@ -401,14 +593,21 @@ func (ex *Exec) heapFacts(name string, h *Term, wm *Term) {
 		return
 	}
 	body := Ge(v, Int(0))
-	if kind == "ref" {
-		body = And(body, Le(v, wm))
+	if ref := heapLeafRef[name]; kind == "ref" && ref != "" {
+		// only rows of allocated objects are constrained: what lies above the watermark is unallocated space whose
+		// contents must stay arbitrary, because objects allocated later (by callees under contract, by earlier loop
+		// iterations) are read from there
+		bound := Le(v, ex.wmGet(wm, ref))
+		if owner := heapOwnerKey[name]; owner != "" {
+			bound = Implies(Le(o, ex.wmGet(wm, owner)), bound)
+		}
+		body = And(body, bound)
 	}
 	ex.assumeRaw(Forall(vars, body, []*Term{v}))
 }
 
 // rowFacts: the same for a single fresh row / entry stored at one index of a heap.
-func (ex *Exec) rowFacts(name string, row *Term, wm *Term) {
+func (ex *Exec) rowFacts(name string, row *Term, wm *WMs) {
 	kind := heapLeafKind[name]
 	if kind == "" {
 		return
@@ -428,8 +627,8 @@ func (ex *Exec) rowFacts(name string, row *Term, wm *Term) {
 		return
 	}
 	body := Ge(v, Int(0))
-	if kind == "ref" {
-		body = And(body, Le(v, wm))
+	if ref := heapLeafRef[name]; kind == "ref" && ref != "" {
+		body = And(body, Le(v, ex.wmGet(wm, ref)))
 	}
 	if len(vars) > 0 {
 		ex.assumeRaw(Forall(vars, body, []*Term{v}))
@@ -532,6 +731,7 @@ func mapOf(t types.Type) *mapHeaps {
 func (mh *mapHeaps) domName() string {
 	n := "MD_" + mh.key
 	heapSortReg[n] = mh.domSort()
+	heapOwnerKey[n] = "M_" + mh.key
 	return n
 }
 func (mh *mapHeaps) lenName() string {
@@ -540,6 +740,7 @@ func (mh *mapHeaps) lenName() string {
 		heapLeafKind[n] = "nat"
 	}
 	heapSortReg[n] = ArrSort(SInt, SInt)
+	heapOwnerKey[n] = "M_" + mh.key
 	return n
 }
 func (mh *mapHeaps) valName(l Leaf) string {
@@ -548,6 +749,9 @@ func (mh *mapHeaps) valName(l Leaf) string {
 		heapLeafKind[n] = leafKind(l)
 	}
 	heapSortReg[n] = mh.valSort(l)
+	heapOwnerKey[n] = "M_" + mh.key
+	heapLeafRef[n] = l.Ref
+	heapLeafT[n] = l.T
 	return n
 }
 func (mh *mapHeaps) domSort() Sort        { return ArrSort(SInt, ArrSort(mh.ks, SBool)) }
@@ -583,6 +787,7 @@ func (ex *Exec) mapGet(st *State, mt types.Type, m *Term, k *Term) Val {
 		row := Select(ex.heapGet(st, mh.valName(l), mh.valSort(l)), m)
 		v.L[i] = Ite(has, Select(row, k), zeroTerm(l))
 	}
+	ex.refFacts(st, v)
 	return v
 }
 
@@ -613,7 +818,7 @@ func (ex *Exec) mapDelete(st *State, mt types.Type, m *Term, k *Term) {
 // newMap allocates an empty map.
 func (ex *Exec) newMap(st *State, mt types.Type) *Term {
 	mh := mapOf(mt)
-	id := ex.alloc(st)
+	id := ex.alloc(st, "M_"+mh.key)
 	d := ex.heapGet(st, mh.domName(), mh.domSort())
 	ex.heapSet(st, mh.domName(), Store(d, id, ConstArr(ArrSort(mh.ks, SBool), False)))
 	ln := ex.heapGet(st, mh.lenName(), ArrSort(SInt, SInt))
@@ -621,16 +826,37 @@ func (ex *Exec) newMap(st *State, mt types.Type) *Term {
 	return id
 }
 
-func (ex *Exec) alloc(st *State) *Term {
-	id := Add(st.wm, Int(1))
-	st.wm = id
+// alloc takes the next id of allocation space key.
+func (ex *Exec) alloc(st *State, key string) *Term {
+	id := Add(ex.wm(st, key), Int(1))
+	st.wm.m[key] = id
+	ex.markFresh(id)
+	if ex.wlog != nil {
+		ex.wlog.logAlloc(key)
+	}
 	return id
 }
 
+// bumpWM: a callee that is not executed may have allocated objects in any space (nothing is known about what it exposes).
 func (ex *Exec) bumpWM(st *State) {
-	old := st.wm
-	st.wm = Fresh("wm", SInt)
-	ex.assume(st, Ge(st.wm, old))
+	wmGenSeq++
+	st.wm = &WMs{m: map[string]*Term{}, gen: &wmGen{id: wmGenSeq, prev: st.wm.clone()}}
+	if ex.wlog != nil {
+		ex.wlog.allocAll = true
+	}
+}
+
+// bumpKeys: objects of the given allocation spaces may have been allocated.
+func (ex *Exec) bumpKeys(st *State, keys map[string]bool) {
+	for _, k := range sortedKeys(keys) {
+		old := ex.wm(st, k)
+		nw := Fresh("wm_"+k, SInt)
+		st.wm.m[k] = nw
+		ex.assume(st, Ge(nw, old))
+		if ex.wlog != nil {
+			ex.wlog.logAlloc(k)
+		}
+	}
 }
 
 // load reads the value at a location.
@@ -654,6 +880,7 @@ func (ex *Exec) load(st *State, loc *Loc) Val {
 			h := ex.heapGet(st, fieldHeapName(loc.Obj, loc.Prefix+l.Path), ArrSort(SInt, l.Sort))
 			v.L[i] = Select(h, loc.Base)
 		}
+		ex.refFacts(st, v)
 		return v
 	case locElem:
 		ls := Layout(loc.T)
@@ -662,9 +889,30 @@ func (ex *Exec) load(st *State, loc *Loc) Val {
 			h := ex.heapGet(st, elemHeapName(loc.Obj, loc.Prefix+l.Path), ArrSort(SInt, ArrSort(SInt, l.Sort)))
 			v.L[i] = Select(shiftRow(Select(h, loc.Base), loc.Off), loc.Idx)
 		}
+		ex.refFacts(st, v)
 		return v
 	}
 	panic("load: bad loc")
+}
+
+// refFacts: a reference read from an object that exists points to an object that exists (heap well-formedness, stated
+// as a ground fact at each read so that it does not depend on instantiating the quantified range axioms of the heaps).
+func (ex *Exec) refFacts(st *State, v Val) {
+	ls := Layout(v.T)
+	n := 0
+	for i, l := range ls {
+		if l.Ref == "" || i >= len(v.L) {
+			continue
+		}
+		if n++; n > 24 {
+			return // whole-struct copies: leave the rest to the quantified axioms
+		}
+		t := v.L[i]
+		if t.op == "int" {
+			continue
+		}
+		ex.assume(st, And(Ge(t, Int(0)), Le(t, ex.wm(st, l.Ref))))
+	}
 }
 
 func (ex *Exec) store(st *State, loc *Loc, v Val) {
@@ -759,7 +1007,11 @@ func (ex *Exec) typeFacts(st *State, v Val) {
 		case strings.HasSuffix(l.Path, "#len") || strings.HasSuffix(l.Path, "#off"):
 			ex.assume(st, Ge(t, Int(0)))
 		case strings.HasSuffix(l.Path, "#arr"):
-			ex.assume(st, And(Ge(t, Int(0)), Le(t, st.wm)))
+			if l.Ref != "" {
+				ex.assume(st, And(Ge(t, Int(0)), Le(t, ex.wm(st, l.Ref))))
+			} else {
+				ex.assume(st, Ge(t, Int(0)))
+			}
 			if i+2 < len(v.L) {
 				ex.assume(st, Implies(Eq(t, Int(0)), Eq(v.L[i+2], Int(0))))
 			}
@@ -770,12 +1022,16 @@ func (ex *Exec) typeFacts(st *State, v Val) {
 					ex.assume(st, Ge(t, Int(0)))
 				}
 				if u.Info()&types.IsInteger != 0 {
-					if lo, hi, ok := intRange(u); ok && (ex.arith || u.Kind() == types.Int32 || u.Kind() == types.Uint32 || u.Kind() == types.Uint8 || u.Kind() == types.Int8 || u.Kind() == types.Int16 || u.Kind() == types.Uint16) {
+					if lo, hi, ok := intRange(u); ok && (ex.arith || ex.ranged || u.Kind() == types.Int32 || u.Kind() == types.Uint32 || u.Kind() == types.Uint8 || u.Kind() == types.Int8 || u.Kind() == types.Int16 || u.Kind() == types.Uint16) {
 						ex.assume(st, And(Ge(t, lo), Le(t, hi)))
 					}
 				}
 			case *types.Pointer, *types.Map:
-				ex.assume(st, And(Ge(t, Int(0)), Le(t, st.wm)))
+				if l.Ref != "" {
+					ex.assume(st, And(Ge(t, Int(0)), Le(t, ex.wm(st, l.Ref))))
+				} else {
+					ex.assume(st, Ge(t, Int(0)))
+				}
 			}
 		}
 	}
@@ -1012,16 +1268,41 @@ func (ex *Exec) merge(in []*State) *State {
 		}
 		out.cells[c] = *cur
 	}
-	// watermark
-	var wm *Term
-	for i := len(in) - 1; i >= 0; i-- {
-		if wm == nil {
-			wm = in[i].wm
-		} else {
-			wm = Ite(in[i].guard, in[i].wm, wm)
+	// watermarks
+	sameGen := true
+	for _, s := range in {
+		if s.wm.gen != in[0].wm.gen {
+			sameGen = false
 		}
 	}
-	out.wm = wm
+	if sameGen {
+		out.wm = &WMs{m: map[string]*Term{}, gen: in[0].wm.gen}
+		keys := map[string]bool{}
+		for _, s := range in {
+			for k := range s.wm.m {
+				keys[k] = true
+			}
+		}
+		for _, k := range sortedKeys(keys) {
+			var cur *Term
+			for i := len(in) - 1; i >= 0; i-- {
+				t := ex.wmGet(in[i].wm, k)
+				if cur == nil {
+					cur = t
+				} else {
+					cur = Ite(in[i].guard, t, cur)
+				}
+			}
+			out.wm.m[k] = cur
+		}
+	} else {
+		wmGenSeq++
+		g := &wmGen{id: wmGenSeq}
+		for _, s := range in {
+			g.merge = append(g.merge, wmEdge{s.guard, s.wm.clone()})
+		}
+		out.wm = &WMs{m: map[string]*Term{}, gen: g}
+	}
 	same := true
 	for _, s := range in {
 		if s.hv != in[0].hv {
@@ -1178,8 +1459,16 @@ func (ex *Exec) discover(fr *Frame, h *ssa.BasicBlock, in *State, back map[[2]in
 	for k, v := range ex.callOrd {
 		saveOrd[k] = v
 	}
-	defer func() { ex.callOrd = saveOrd }()
-	wl := &writeLog{cells: map[*Cell]bool{}, heaps: map[string]*heapW{}}
+	saveEmitted := map[string]bool{}
+	for k, v := range ex.emitted {
+		saveEmitted[k] = v
+	}
+	saveOpaque := map[string]bool{}
+	for k, v := range ex.opaqueDone {
+		saveOpaque[k] = v
+	}
+	defer func() { ex.callOrd = saveOrd; ex.emitted = saveEmitted; ex.opaqueDone = saveOpaque }()
+	wl := &writeLog{cells: map[*Cell]bool{}, heaps: map[string]*heapW{}, ex: ex, freshFrom: ex.freshCtr}
 	ex.wlog = wl
 	ex.dry++
 	// private copies of frame bookkeeping
@@ -1244,16 +1533,27 @@ func (ex *Exec) discover(fr *Frame, h *ssa.BasicBlock, in *State, back map[[2]in
 
 func (ex *Exec) havocFor(st *State, wl *writeLog) *State {
 	ns := st.clone()
+	if wl.allocAll {
+		saveLog := ex.wlog
+		ex.wlog = nil
+		ex.bumpWM(ns)
+		ex.wlog = saveLog
+	} else if len(wl.allocKeys) > 0 {
+		saveLog := ex.wlog
+		ex.wlog = nil
+		ex.bumpKeys(ns, wl.allocKeys)
+		ex.wlog = saveLog
+	}
 	for c := range wl.cells {
+		if c.T == nil {
+			continue
+		}
 		if _, ok := ns.cells[c]; ok || true {
 			v := FreshVal("c_"+c.Name, c.T)
 			ns.cells[c] = v
 			ex.typeFacts(ns, v)
 		}
 	}
-	old := ns.wm
-	ns.wm = Fresh("wm", SInt)
-	ex.assume(ns, Ge(ns.wm, old))
 	names := make([]string, 0, len(wl.heaps))
 	for n := range wl.heaps {
 		names = append(names, n)
@@ -1276,6 +1576,7 @@ func (ex *Exec) havocFor(st *State, wl *writeLog) *State {
 var loopInfos = map[*Frame]map[*ssa.BasicBlock]*loopInfo{}
 
 func (ex *Exec) loopHead(fr *Frame, h *ssa.BasicBlock, in *State, back map[[2]int]bool) *State {
+	ex.impure++
 	ord := fr.loopOrd[h]
 	var invs []*Clause
 	if fr.con != nil {
